@@ -217,6 +217,9 @@ def run(pid, tier, seed, replay=None):
         # ... and single commands / pipelines run through capture() with much input, against children that exit early,
         # read little, or close their outputs before they read their input
         pscs += [x for x in api_scen.fam_handles(seed, False) if x["handle"] in ("capture", "capture_data", "pl_capture", "pl_capture_data")]
+        # ... and pipelines run through capture()/communicate() whose k-th command cannot be started
+        pscs += [x for x in api_scen.fam_pipeline_fail(seed, False) if x["term"] in ("capture", "communicate")
+                 and (x.get("noisy") or x.get("stream"))]
         presults, pstates, pblocks, pnote = c_api.run_api(pid, tier, seed, pscs, "C01pl")
         pnew, pknown, pothers, _, _ = c_api.classify(pid, pscs, presults, pblocks, PREFIX[pid], "api")
         uniq += pnew
